@@ -530,3 +530,446 @@ def server_plan(rng, tier):
             r('GET', '/', o + [('X-Bad', b'\xff\xfe')], entry=rng.choice(['proc', 'preq']), kind='answer built without the request', strict=False)
         plan.append((label, pairs, reqs))
     return plan
+
+
+# ====================================================================== second audit pass (audit/C11/AUDIT2.md): feature-style classes
+# What a maintainer of a static server plausibly ADDS on this code path, and the relation of inputs a careless version of it hinges on:
+#   a pattern language for the configured entries        - an entry written in it x an Origin that matches under it and is not equal
+#   a log line / a cut of a long value                   - multi-byte characters straddling every byte offset
+#   proxy awareness, a "same origin" exemption           - a forwarded-host family / the server's own address / the peer's address x an
+#                                                          UNCONFIGURED Origin naming the same authority
+#   support for a header ignored so far                  - that header x Origin kind x what the target is (file, sidecar, directory, missing)
+#   keep-alive, pipelining, an interim answer            - two requests in one read with DIFFERENT Origins; Expect x a body; every answer of the stream
+#   a decision / response cache, a remembered origin     - this request x the one before it (same target / Origin / method / cookie, other grants)
+#   grants on answers built without the request          - a refused request after a granted one; "Origin:" text in the body or in another header
+#   trimming of header values "as the RFC says"          - characters at the edges of the Origin value that are not optional white space
+MB_CHARS = ['\u0439', '\u20ac', '\U0001f600']            # 2, 3 and 4 bytes in UTF-8
+
+def straddlers(total):
+    """strings of >= `total` bytes made of one multi-byte character each, in every alignment: whatever byte offset a cut is made at
+    (beyond the first dozen bytes), in one of the strings of each width it falls inside a character"""
+    out = []
+    for ch in MB_CHARS:
+        w = len(ch.encode())
+        for shift in range(w):
+            out.append('https://' + 'a' * shift + ch * (total // w + 1) + '.example')
+    return out
+
+# (configured entry, Origins that match it under the language the entry seems to be written in - none of them EQUAL to it)
+PATTERN_ENTRIES = [
+    ('.example', ['https://foo.example', 'https://a.b.example', 'https://example', 'foo.example']),
+    ('*.example', ['https://foo.example', 'foo.example', 'https://a.b.example']),
+    ('https://*.foo.example', ['https://a.foo.example', 'https://foo.example', 'https://a.b.foo.example', 'https://evil.example/.foo.example']),
+    ('https://.foo.example', ['https://a.foo.example', 'https://foo.example']),
+    ('http://localhost:*', ['http://localhost:3000', 'http://localhost', 'http://localhost:', 'http://localhost:80']),
+    ('http://localhost:[0-9]+', ['http://localhost:3000', 'http://localhost:0']),
+    ('http://localhost:\\d+', ['http://localhost:3000']),
+    ('http://localhost:3000-3010', ['http://localhost:3005', 'http://localhost:3000']),
+    ('^https://foo\\.example$', ['https://foo.example']),
+    ('/^https:\\/\\/.*\\.example$/', ['https://foo.example', 'https://evil.example']),
+    ('https://.*\\.example', ['https://foo.example', 'https://evil.test/.example']),
+    ('https://.+', ['https://foo.example']),
+    ('https://foo.example|https://bar.example', ['https://foo.example', 'https://bar.example']),
+    ('https://(foo|bar).example', ['https://foo.example', 'https://bar.example']),
+    ('https://fo?.example', ['https://foo.example', 'https://fo.example', 'https://f.example']),
+    ('https://fo[a-z].example', ['https://foo.example']),
+    ('https://foo.example:*', ['https://foo.example:8443', 'https://foo.example']),
+    ('*://foo.example', ['https://foo.example', 'http://foo.example', 'ws://foo.example']),
+    ('http*://foo.example', ['https://foo.example', 'http://foo.example']),
+    ('https?://foo.example', ['https://foo.example', 'http://foo.example']),
+    ('https://*', ['https://foo.example', 'https://evil.example']),
+    ('**', ['https://foo.example', 'null']),
+    ('https://**.example', ['https://a.b.example']),
+    ('%', ['https://foo.example']), ('https://%.example', ['https://foo.example']), ('https://foo.example%', ['https://foo.example.evil.test']),
+    ('foo.example', ['https://foo.example', 'http://foo.example', 'https://foo.example:443', '//foo.example']),
+    ('foo.example:8443', ['https://foo.example:8443', 'http://foo.example:8443']),
+    ('//foo.example', ['https://foo.example', 'http://foo.example']),
+    ('https://foo.example/*', ['https://foo.example', 'https://foo.example/']),
+    ('https://foo.example/api', ['https://foo.example']),
+    ('localhost', ['http://localhost', 'http://localhost:3000', 'https://localhost', 'http://127.0.0.1', 'http://[::1]:3000']),
+    ('127.0.0.1', ['http://127.0.0.1', 'http://127.0.0.1:7878', 'http://localhost']),
+    ('loopback', ['http://localhost:3000', 'http://127.0.0.1:3000']),
+    ('192.168.0.0/16', ['http://192.168.1.5', 'http://192.168.1.5:8080']),
+    ('http://192.168.0.0/16', ['http://192.168.1.5', 'http://192.168.0.0']),
+    ('http://10.*', ['http://10.1.2.3', 'http://10.evil.test']),
+    ('http://10.0.0.1-10.0.0.9', ['http://10.0.0.5']),
+    ('private', ['http://192.168.1.5', 'http://10.0.0.1']),
+    ('any', ['https://foo.example', 'null']), ('all', ['https://foo.example']), ('true', ['https://foo.example']), ('yes', ['https://foo.example']),
+    ('self', ['http://127.0.0.1:7878', 'http://localhost:7878']), ("'self'", ['http://127.0.0.1:7878']), ('same-origin', ['http://127.0.0.1:7878', 'http://localhost']),
+    ('same-site', ['https://www.foo.example']), ('none', ['none', 'null', '']), ('null', ['', 'NULL', 'file://', 'data:', 'about:blank']),
+    ('regex:^https://', ['https://foo.example']), ('re:.*', ['https://foo.example']), ('glob:https://*.example', ['https://foo.example']), ('~^https://', ['https://foo.example']),
+    ('!https://evil.example', ['https://foo.example', 'https://evil.example']),
+    ('https://foo.example$', ['https://foo.example']), ('^https://foo.example', ['https://foo.example', 'https://foo.example.evil.test']),
+    ('https://foo.example;https://bar.example', ['https://foo.example', 'https://bar.example']),
+    ('["https://foo.example"]', ['https://foo.example']), ('"https://foo.example"', ['https://foo.example']), ("'https://foo.example'", ['https://foo.example']),
+    ('<https://foo.example>', ['https://foo.example']), ('https://foo.example # the shop', ['https://foo.example']), ('origin=https://foo.example', ['https://foo.example']),
+    ('$ORIGIN', ['https://foo.example']), ('${ORIGIN}', ['https://foo.example']), ('{origin}', ['https://foo.example']), ('%{HTTP_ORIGIN}', ['https://foo.example']),
+]
+
+# families of headers by which a proxy (or the request itself) names the authority the CLIENT addressed: `{h}` host[:port], `{s}` scheme, `{o}` the origin
+PROXY_FAMILIES = [
+    [('Host', '{h}')], [('Forwarded', 'host={h};proto={s}')], [('Forwarded', 'for=10.0.0.1;proto={s};host="{h}"')], [('X-Forwarded-Host', '{h}'), ('X-Forwarded-Proto', '{s}')],
+    [('X-Forwarded-Host', '{h}')], [('X-Forwarded-Server', '{h}')], [('X-Original-Host', '{h}')], [('X-Host', '{h}')], [('X-Real-Host', '{h}')], [('X-Forwarded-Host', 'first.example, {h}')],
+    [('X-Forwarded-Origin', '{o}')], [('X-Original-URL', '{o}/x')], [('X-Rewrite-URL', '{o}/x')], [('Referer', '{o}/page')], [('Referer', '{o}')], [('Sec-WebSocket-Origin', '{o}')],
+    [('X-Forwarded-Proto', '{s}'), ('Host', '{h}')], [('X-Forwarded-Port', '443'), ('Host', '{h}')], [('Via', '1.1 {h}')], [(':authority', '{h}')], [('Alt-Used', '{h}')],
+    [('X-Forwarded-For', '127.0.0.1'), ('Host', '{h}')], [('X-Real-IP', '127.0.0.1'), ('Host', '{h}')], [('CF-Connecting-IP', '127.0.0.1'), ('Host', '{h}')],
+]
+
+# request headers the server ignores today and a maintainer may start to honour (conditional answers, negotiated encodings, interim answers,
+# connection management, proxies, fetch metadata, method override ...)
+FEATURE_HEADERS = [
+    [('If-None-Match', '*')], [('If-None-Match', '"abc"')], [('If-None-Match', 'W/"abc", "def"')], [('If-Match', '*')], [('If-Match', '"nope"')],
+    [('If-Modified-Since', 'Sun, 06 Nov 2094 08:49:37 GMT')], [('If-Modified-Since', 'Thu, 01 Jan 1970 00:00:00 GMT')], [('If-Modified-Since', 'yesterday')],
+    [('If-Unmodified-Since', 'Thu, 01 Jan 1970 00:00:00 GMT')], [('If-Unmodified-Since', 'Sun, 06 Nov 2094 08:49:37 GMT')],
+    [('Range', 'bytes=0-3'), ('If-Range', '"abc"')], [('Range', 'bytes=0-3'), ('If-Range', 'Sun, 06 Nov 2094 08:49:37 GMT')], [('If-Range', '"abc"')],
+    [('Range', 'bytes=0-3')], [('Range', 'bytes=0-0,2-3')], [('Range', 'bytes=-1')], [('Range', 'bytes=900-')], [('Range', 'lines=1-2')],
+    [('Accept-Encoding', 'gzip')], [('Accept-Encoding', 'br, gzip;q=0.5')], [('Accept-Encoding', 'identity;q=0, *;q=0')], [('Accept-Encoding', 'deflate, zstd')], [('Accept-Encoding', '')],
+    [('Expect', '100-continue')], [('Expect', '100-Continue')], [('Expect', 'nonsense')],
+    [('Connection', 'keep-alive')], [('Connection', 'close')], [('Connection', 'keep-alive'), ('Keep-Alive', 'timeout=5, max=100')], [('Proxy-Connection', 'keep-alive')],
+    [('Connection', 'Upgrade'), ('Upgrade', 'websocket'), ('Sec-WebSocket-Key', 'dGhlIHNhbXBsZSBub25jZQ=='), ('Sec-WebSocket-Version', '13')],
+    [('Connection', 'Upgrade, HTTP2-Settings'), ('Upgrade', 'h2c'), ('HTTP2-Settings', 'AAMAAABkAAQAAP__')], [('Upgrade', 'TLS/1.0')], [('Upgrade-Insecure-Requests', '1')],
+    [('TE', 'trailers')], [('TE', 'gzip')], [('Transfer-Encoding', 'chunked')], [('Transfer-Encoding', 'gzip, chunked')], [('Content-Encoding', 'gzip')], [('Trailer', 'Origin')],
+    [('Forwarded', 'for=1.2.3.4;host=foo.example;proto=https')], [('X-Forwarded-For', '1.2.3.4'), ('X-Forwarded-Proto', 'https'), ('X-Forwarded-Host', 'foo.example')], [('Via', '1.1 proxy')], [('Max-Forwards', '0')],
+    [('Prefer', 'return=minimal')], [('Prefer', 'respond-async, wait=0')], [('Prefer', 'safe')],
+    [('Cookie', 'sid=1')], [('Cookie', 'origin=https://foo.example')], [('Authorization', 'Bearer x')], [('Authorization', 'Basic dTpw')], [('Proxy-Authorization', 'Basic dTpw')],
+    [('Accept', 'text/html')], [('Accept', 'application/json')], [('Accept', 'text/event-stream')], [('Accept', 'image/webp,*/*;q=0.1')], [('Accept-Language', 'de')], [('Accept-Charset', 'utf-8')],
+    [('Cache-Control', 'no-cache')], [('Cache-Control', 'only-if-cached')], [('Cache-Control', 'max-age=0')], [('Cache-Control', 'no-store')], [('Pragma', 'no-cache')],
+    [('Access-Control-Request-Private-Network', 'true')], [('Access-Control-Request-Local-Network', 'true')], [('Access-Control-Request-Private-Network', 'false')],
+    [('Access-Control-Request-Credentials', 'true')], [('Access-Control-Request-Max-Age', '5')],
+    [('Sec-Fetch-Mode', 'cors'), ('Sec-Fetch-Site', 'cross-site'), ('Sec-Fetch-Dest', 'empty')], [('Sec-Fetch-Mode', 'no-cors'), ('Sec-Fetch-Dest', 'image')], [('Sec-Fetch-Site', 'same-origin')],
+    [('Sec-Fetch-Mode', 'navigate'), ('Sec-Fetch-Dest', 'document'), ('Sec-Fetch-User', '?1')], [('Sec-Fetch-Site', 'none')], [('Sec-Fetch-Mode', 'websocket')], [('Sec-Fetch-Storage-Access', 'active')],
+    [('Sec-Purpose', 'prefetch')], [('Purpose', 'prefetch')], [('Service-Worker', 'script')], [('Service-Worker-Navigation-Preload', 'true')], [('Save-Data', 'on')], [('DNT', '1')], [('Sec-GPC', '1')],
+    [('X-HTTP-Method-Override', 'OPTIONS')], [('X-HTTP-Method-Override', 'GET')], [('X-Method-Override', 'OPTIONS')], [('X-HTTP-Method', 'DELETE')], [('X-Requested-With', 'XMLHttpRequest')],
+    [('Content-Type', 'text/plain')], [('Content-Type', 'application/json')], [('Content-Type', 'multipart/form-data; boundary=x')], [('Content-Length', '0')],
+    [('Origin-Agent-Cluster', '?1')], [('Timing-Allow-Origin', '*')], [('Cross-Origin-Resource-Policy', 'same-origin')], [('Vary', 'Origin')], [('ETag', '"x"')], [('Last-Modified', 'Thu, 01 Jan 1970 00:00:00 GMT')],
+    [('User-Agent', 'Mozilla/5.0 (compatible; Googlebot/2.1)')], [('User-Agent', '')], [('From', 'bot@crawler.example')], [('Early-Data', '1')], [('Priority', 'u=0, i')], [('Sec-CH-UA', '"x";v="1"')],
+]
+
+# file types for which "everybody" sends a blanket grant (fonts, media playlists, modules, manifests ...): the statement knows no such exception
+MEDIA_FILES = ['font.woff2', 'font.woff', 'font.ttf', 'font.otf', 'font.eot', 'app.mjs', 'app.js', 'app.js.map', 'app.wasm', 'data.json', 'feed.xml', 'site.webmanifest', 'manifest.json', 'logo.svg', 'logo.png',
+               'photo.jpg', 'clip.mp4', 'live.m3u8', 'seg.ts', 'subs.vtt', 'doc.pdf', 'style.css', 'page.html', 'robots.txt', 'openapi.yaml', 'model.glb', 'tiles.pbf', 'noext']
+
+EDGE_CHARS = [' ', '  ', '\t', ' \t', '\u00a0', '\x0b', '\x0c', '\x1c', '\x1f', '\x00', '\u0085', '\u1680', '\u2000', '\u2003', '\u2009', '\u2028', '\u2029', '\u202f', '\u205f', '\u3000', '\ufeff', '\u200b', '\u200e', '\u00ad', '\x7f', '"', "'"]
+
+
+def codec_cases2(rng, tier, E):
+    """second pass, codec level: every line is also compared with the Lean model"""
+    quick = tier == 'quick'
+    get, proc, allow_all = E.get, E.proc, E.allow_all
+    foo, bar, evil = CONF[0], CONF[1], 'https://evil.example'
+
+    # ---------------------------------------------------------------- K. configured entries written in a pattern language
+    turn = 0
+    for entry, matches in PATTERN_ENTRIES:
+        for ov in matches + [entry]:
+            for setting in (entry, bar + ',' + entry + ',' + CONF[3]):
+                turn += 1
+                method = 'OPTIONS' if turn % 2 else 'GET'
+                hs = [('Origin', ov)] + (PREFLIGHT if turn % 4 == 1 else [])
+                get(env_off(setting, cred=('true' if turn % 3 else None)), method, hs, 'pattern-like configured entry')
+                if setting == entry or not quick:
+                    proc(cors_of(setting.split(',')), method, hs, 'pattern-like configured entry')
+                    get(env_off(setting), method, hs, 'pattern-like configured entry', 'corsdef')
+                if not quick: get(env_off(setting, switch='true'), method, hs, 'pattern-like configured entry, switch on (echo)')
+
+    # ---------------------------------------------------------------- L. multi-byte characters straddling every byte offset (a cut for a log line, a length limit)
+    for s in straddlers(600 if quick else 5000):
+        for method in ('GET', 'OPTIONS'):
+            pre = PREFLIGHT if method == 'OPTIONS' else []
+            get(env_off(','.join(CONF)), method, [('Origin', s)] + pre, 'multi-byte straddling every offset')                                  # unrelated and long
+            get(env_off(foo + ',' + s), method, [('Origin', s)] + pre, 'multi-byte straddling every offset')                                    # configured
+            get(env_off(foo + ',' + s), method, [('Origin', s[:-1])] + pre, 'multi-byte straddling every offset')                                # near miss of a long entry
+            get(env_off(s, switch='true'), method, [('Origin', s)] + pre, 'multi-byte straddling every offset, switch on (echo)')
+        hs = [('Origin', foo), ('Access-Control-Request-Method', s), ('Access-Control-Request-Headers', 'X-' + s)]
+        get(env_off(foo, switch='true'), 'OPTIONS', hs, 'multi-byte straddling every offset, switch on (echo)')
+        get(env_off(foo), 'OPTIONS', hs, 'multi-byte straddling every offset')
+        allow_all('OPTIONS', hs, 'multi-byte straddling every offset, switch on (echo)')
+        proc(cors_of([foo, s]), 'OPTIONS', [('Origin', s)], 'multi-byte straddling every offset')
+        # (the configured list VALUES are lower-cased by the code; the oracle judges them only inside its trusted pool: names only here)
+        get(env_off(foo, lists=dict(ALLOW_METHODS=s, ALLOW_HEADERS='x-a', EXPOSE_HEADERS='x-b', MAX_AGE=s)), 'OPTIONS', [('Origin', foo)], 'multi-byte straddling every offset')
+        get(env_off(foo), s[:40], [('Origin', foo)], 'multi-byte straddling every offset')
+        get(env_off(foo), 'GET', [('Origin', foo)], 'multi-byte straddling every offset', uri='/' + s)
+        get(env_off(foo), 'GET', [('Cookie', s), ('Origin', evil), ('Referer', s)], 'multi-byte straddling every offset')
+
+    # ---------------------------------------------------------------- M. an UNCONFIGURED Origin that names the authority a proxy header / the server's own address / the peer names
+    addr = [('RWS_CONFIG_IP', '127.0.0.1'), ('RWS_CONFIG_PORT', '7878')]
+    for h, s in [('attacker.example', 'https'), ('shop.example:8443', 'https'), ('localhost:7878', 'http'), ('127.0.0.1:7878', 'http')]:
+        o = s + '://' + h
+        for fam in PROXY_FAMILIES:
+            xs = [(n, v.format(h=h, s=s, o=o)) for n, v in fam]
+            for method in ('GET', 'OPTIONS'):
+                for before in ((False, True) if not quick else (rng.chance(1, 2),)):
+                    hs = (xs + [('Origin', o)]) if before else ([('Origin', o)] + xs)
+                    hs = hs + (PREFLIGHT if method == 'OPTIONS' else [])
+                    get(env_off(','.join(CONF)) + addr, method, hs, 'unconfigured origin named by a proxy header')
+                    if not quick or method == 'GET': get(env_off(','.join(CONF), switch='true') + addr, method, hs, 'origin named by a proxy header, switch on (echo)')
+                    if not quick: proc(cors_of(CONF), method, hs, 'unconfigured origin named by a proxy header')
+    # NO Origin header, and another header names a CONFIGURED origin (a fallback for the missing header): nothing is earned, whatever the switch says
+    for e in (foo, CONF[2], CONF2[1]):
+        sc, h = split_origin(e)
+        for fam in PROXY_FAMILIES + [[('X-Origin', '{o}')], [('X-Original-Origin', '{o}')], [('Origin-Fallback', '{o}')], [('Access-Control-Allow-Origin', '{o}')], [('Cookie', 'origin={o}')]]:
+            xs = [(n, v.format(h=h, s=sc, o=e)) for n, v in fam]
+            for method in ('GET', 'OPTIONS'):
+                hs = xs + (PREFLIGHT if method == 'OPTIONS' else [])
+                get(env_off(','.join(CONF + CONF2)), method, hs, 'no origin header, another header names a configured origin')
+                get(env_off(','.join(CONF + CONF2), switch='true'), method, hs, 'no origin header, another header names a configured origin, switch on')
+                if method == 'GET' or not quick:
+                    proc(cors_of(CONF + CONF2), method, hs, 'no origin header, another header names a configured origin')
+                    get(env_off(e), method, hs, 'no origin header, another header names a configured origin', 'corsdef')
+    # the server's own address and the peer's address as the Origin: neither is configured, with and without a Host header, address variables set / unset
+    own = ['http://127.0.0.1:7878', 'http://localhost:7878', 'https://127.0.0.1:7878', 'http://127.0.0.1', 'http://127.0.0.1:40000', 'http://[::1]:7878', 'http://0.0.0.0:7878',
+           'http://127.0.0.1:7878/', 'HTTP://127.0.0.1:7878', 'http://127.1:7878', '127.0.0.1:7878', 'http://rws.local:7878']
+    for ov in own:
+        for host in (None, '127.0.0.1:7878', 'localhost:7878', 'localhost'):
+            for method in ('GET', 'OPTIONS'):
+                hs = ([('Host', host)] if host is not None else []) + [('Origin', ov)] + (PREFLIGHT if method == 'OPTIONS' else [])
+                for extra in (addr, [('RWS_CONFIG_IP', '0.0.0.0'), ('RWS_CONFIG_PORT', '7878')], []):
+                    get(env_off(','.join(CONF)) + extra, method, hs, "origin names the server's own / the peer's address")
+                get(addr + env_off(foo, switch='true'), method, hs, "origin names the server's own address, switch on (echo)")
+    # own address CONFIGURED: only the exact text earns the grants
+    for ov in own:
+        get(env_off('http://127.0.0.1:7878,' + foo) + addr, 'OPTIONS', [('Host', '127.0.0.1:7878'), ('Origin', ov)] + PREFLIGHT, "origin names the server's own / the peer's address")
+
+    # ---------------------------------------------------------------- N. request headers the server ignores today (conditional, encodings, interim, connection, proxies, fetch metadata)
+    origins = [('configured', bar), ('unrelated', evil), ('absent', None), ('first', foo)] + ([] if quick else [('near', bar + '/'), ('null', 'null')])
+    for xs in FEATURE_HEADERS:
+        for ok_, ov in origins:
+            for method in ('GET', 'OPTIONS', 'HEAD', 'POST'):
+                if quick and method in ('HEAD', 'POST') and rng.chance(2, 3): continue
+                o = [('Origin', ov)] if ov is not None else []
+                hs = (xs + o) if rng.chance(1, 2) else (o + xs)
+                hs = hs + (PREFLIGHT if method == 'OPTIONS' and rng.chance(1, 2) else [])
+                body = b'3\r\nabc\r\n0\r\n\r\n' if any(n == 'Transfer-Encoding' for n, _ in xs) else (b'a=b' if method == 'POST' else b'')
+                sw = 'true' if rng.chance(1, 3) else 'false'
+                get(env_off(','.join(CONF), switch=sw, cred=rng.choice(['true', 'true', 'false', None])), method, hs, 'feature header (ignored today)' + (', switch on (echo)' if sw == 'true' else ''), body=body)
+                if not quick:
+                    proc(cors_of(CONF), method, hs, 'feature header (ignored today)', body=body)
+                    allow_all(method, hs, 'feature header (ignored today), switch on (echo)', body=body)
+
+
+# ---------------------------------------------------------------------- second pass, whole responses as a STREAM
+def _raw(method, target, headers, body=b'', version='HTTP/1.1'):
+    out = f'{method} {target} {version}\r\n'.encode('utf-8')
+    for n, v in headers:
+        out += (n.encode('utf-8') if isinstance(n, str) else n) + b': ' + (v.encode('utf-8') if isinstance(v, str) else v) + b'\r\n'
+    return out + b'\r\n' + body
+
+def feature_plan(rng, tier):
+    """[(label, cors environment pairs, [descriptor])]; one harness process each, the requests in the order given (histories matter).
+    descriptor: dict(raw=bytes, entry=, kind=, alloc=, ws=, target=, reqs=[(method, headers, strict)])
+        reqs: the request(s) the bytes hold, in order; answer number k of the stream is judged against request number k
+        strict=True  exactly the grants the request earns;  strict=False  at most those (an answer built without the request, an interim answer,
+        a request whose Origin value the parser may read in two ways)"""
+    quick = tier == 'quick'
+    foo, bar, evil = CONF[0], CONF[1], 'https://evil.example'
+    OFF = env_off(','.join(CONF))
+    ON = env_off(','.join(CONF), switch='true', cred='false')
+    ENTRIES = ['proc', 'preq', 'aexec', 'aexecl']
+    FILE = '/file.txt'
+    targets = [FILE, '/file.txt.gz', '/missing', '/sub', '/sub/', '/page', '/', '/style.css', '/data.json', '/empty.txt']
+
+    def one(method, target, headers, kind, strict=True, body=b'', version='HTTP/1.1', entry=None, alloc=10000, ws='all', raw=None, flush='ok', app='real'):
+        return dict(raw=_raw(method, target, headers, body, version) if raw is None else raw, entry=entry or rng.choice(ENTRIES), kind=kind, alloc=alloc, ws=ws, target=target,
+                    flush=flush, app=app, reqs=[(method, list(headers), strict)])
+
+    def feature_block(pairs):
+        reqs = []
+        origins = [('configured', foo), ('unrelated', evil), ('absent', None)] + ([] if quick else [('configured-last', CONF[3]), ('near', foo + '/')])
+        echo = dict(pairs).get(V['ALLOW_ALL']) != 'false'
+        # --- headers ignored today x what the target is x Origin kind (quick, echo mode: an unrelated Origin earns what a configured one earns - every other header gets one of the two)
+        for i, xs in enumerate(FEATURE_HEADERS):
+            for j, (ok_, ov) in enumerate(origins):
+                if quick and echo and j == (i % 2): continue
+                combos = [(m, t, None) for m in ('GET', 'HEAD', 'OPTIONS', 'POST') for t in targets]
+                if not quick: combos = [('GET', FILE, e) for e in ENTRIES] + [(m, rng.choice(targets), None) for m in ('GET', 'HEAD', 'OPTIONS', 'POST') for _ in range(3)]
+                if quick:
+                    # the plain cases of every header (GET and OPTIONS of the existing file; POST when the header is about a body) through an entry point that
+                    # rotates with the header and the Origin kind: two neighbouring Origin kinds always cover one of the two current and one of the two legacy
+                    # entry points; then a random combination of method and target
+                    bodied = any(n in ('Expect', 'Transfer-Encoding', 'Content-Encoding', 'Content-Type', 'Content-Length', 'Trailer') for n, _ in xs)
+                    rot = i + j + (1 if echo and i % 2 else 0)      # echo mode: the kind that is kept goes through the other pair of entry points than the configured Origin does in list mode
+                    combos = [('GET', FILE, ENTRIES[rot % 4]), ('OPTIONS', FILE, ENTRIES[(rot + 2) % 4])] + ([('POST', FILE, ENTRIES[(rot + 1) % 4])] if bodied else []) \
+                             + ([rng.choice(combos)] if rng.chance(1, 3) else [])
+                for method, t, ent in combos:
+                    o = [('Origin', ov)] if ov is not None else []
+                    hs = [('Host', 'localhost:7878')] + ((xs + o) if rng.chance(1, 2) else (o + xs)) + (PREFLIGHT if method == 'OPTIONS' and (ent is not None or rng.chance(1, 2)) else [])
+                    body = b'3\r\nabc\r\n0\r\n\r\n' if any(n == 'Transfer-Encoding' for n, _ in xs) else (b'a=b' if method == 'POST' else b'')
+                    ws = rng.choice(['all', 'all', 'all', 'c:64', 'c:1000', 's:17.300'])
+                    e = ent or rng.choice(ENTRIES)
+                    reqs.append(one(method, t, hs, 'feature header (ignored today)', body=body, entry=e, ws=ws if e in ('proc', 'preq') else 'all'))
+        # --- what the target IS: file types that "need" a blanket grant, directories that sound public / private, queries that ask for a grant
+        paths = ['/assets/' + f for f in MEDIA_FILES] + ['/api/items.json', '/public/file.txt', '/private/file.txt', '/static/app.js', '/.well-known/security.txt', '/cdn/lib.js',
+                 '/file.txt?cors=1', '/file.txt?origin=' + foo, '/file.txt?callback=cb', '/file.txt?access-control-allow-origin=*', '/data.json?jsonp=cb', '/file.txt#' + foo]
+        for t in paths:
+            for ok_, ov in [('configured', foo), ('unrelated', evil), ('absent', None)]:
+                for method in (('GET', 'OPTIONS', 'HEAD') if not quick else ['GET'] + ([rng.choice(['OPTIONS', 'HEAD'])] if rng.chance(1, 3) else [])):
+                    o = [('Origin', ov)] if ov is not None else []
+                    reqs.append(one(method, t, [('Host', 'localhost:7878')] + o + (PREFLIGHT if method == 'OPTIONS' else []), 'file type / directory / query of the target'))
+        # --- NO Origin header, and another header names a CONFIGURED origin (a fallback for the missing header): nothing is earned, whatever the switch says
+        for e in (foo, CONF[2]):
+            sc, h = split_origin(e)
+            for fam in PROXY_FAMILIES:
+                xs = [(n, v.format(h=h, s=sc, o=e)) for n, v in fam if not n.startswith(':')]
+                if not xs: continue
+                method = rng.choice(['GET', 'GET', 'OPTIONS', 'POST'])
+                reqs.append(one(method, rng.choice([FILE, '/', '/missing']), xs + (PREFLIGHT if method == 'OPTIONS' else []), 'no origin header, another header names a configured origin'))
+        # --- an answer too large for one piece (a server that streams writes the head first), and transports that fail after the request was sent
+        for ok_, ov in origins:
+            o = [('Origin', ov)] if ov is not None else []
+            for method, xs, ws in (('GET', [], 'all'), ('GET', [], 'c:4096'), ('GET', [('Range', 'bytes=0-69999')], 's:100.65536'), ('HEAD', [], 'all'), ('OPTIONS', PREFLIGHT, 'c:50')):
+                reqs.append(one(method, '/big.bin', [('Host', 'localhost:7878')] + o + xs, 'large answer', entry=rng.choice(['proc', 'preq']), ws=ws))
+            for ws, flush in (('e:0', 'ok'), ('e:1', 'ok'), ('all', 'e'), ('c:10', 'e'), ('s:0.0', 'ok')):
+                method = rng.choice(['GET', 'OPTIONS'])
+                reqs.append(one(method, rng.choice([FILE, '/missing']), o + (PREFLIGHT if method == 'OPTIONS' else []), 'transport fails after the request was sent', entry=rng.choice(['proc', 'preq']), ws=ws, flush=flush))
+            # the application refuses / answers with a response of its own: the server's answer is built without the request (at most what it earns)
+            for app in ('err:' + 'oops'.encode().hex(), 'err:' + ('Origin: ' + foo).encode().hex(), 'okempty'):
+                method = rng.choice(['GET', 'OPTIONS', 'POST'])
+                reqs.append(one(method, FILE, o + (PREFLIGHT if method == 'OPTIONS' else []), 'application error / own response', strict=False, entry='proc', app=app))
+        # --- an unconfigured Origin named by a proxy header family; the server's own / the peer's address
+        for h, s in [('attacker.example', 'https'), ('127.0.0.1:7878', 'http')] + ([] if quick else [('shop.example:8443', 'https'), ('localhost:7878', 'http')]):
+            o = s + '://' + h
+            for fam in PROXY_FAMILIES:
+                xs = [(n, v.format(h=h, s=s, o=o)) for n, v in fam if not n.startswith(':')]
+                if not xs: continue
+                method = rng.choice(['GET', 'OPTIONS'])
+                hs = (xs + [('Origin', o)]) if rng.chance(1, 2) else ([('Origin', o)] + xs)
+                reqs.append(one(method, rng.choice([FILE, '/', '/missing']), hs + (PREFLIGHT if method == 'OPTIONS' else []), 'unconfigured origin named by a proxy header'))
+        for ov in ['http://127.0.0.1:7878', 'http://localhost:7878', 'https://127.0.0.1:7878', 'http://127.0.0.1', 'http://127.0.0.1:40000', 'http://[::1]:7878', 'http://0.0.0.0:7878', '127.0.0.1:7878']:
+            for host in (None, '127.0.0.1:7878', 'localhost'):
+                method = rng.choice(['GET', 'OPTIONS', 'POST'])
+                hs = ([('Host', host)] if host is not None else []) + [('Origin', ov)] + (PREFLIGHT if method == 'OPTIONS' else [])
+                reqs.append(one(method, rng.choice([FILE, '/']), hs, "origin names the server's own / the peer's address"))
+        # --- multi-byte characters straddling every offset: Origin, requested method / headers, target, cookie
+        for s in straddlers(600 if quick else 4000):
+            for method in ('GET', 'OPTIONS'):
+                reqs.append(one(method, FILE, [('Origin', s)] + (PREFLIGHT if method == 'OPTIONS' else []), 'multi-byte straddling every offset'))
+            reqs.append(one('OPTIONS', '/', [('Origin', foo), ('Access-Control-Request-Method', s[:300]), ('Access-Control-Request-Headers', 'X-' + s)], 'multi-byte straddling every offset'))
+            reqs.append(one('GET', '/' + s[8:300], [('Origin', foo), ('Cookie', s)], 'multi-byte straddling every offset'))
+        # --- characters at the edges of the Origin value.  Optional white space (blank, tab) is not part of a field value (RFC 9110): the parser may
+        #     or may not strip it, so the request earns AT MOST what the stripped value earns; any other character belongs to the value
+        for ch in EDGE_CHARS:
+            for base in (foo, evil):
+                for where in ('after', 'before'):
+                    val = (base + ch) if where == 'after' else (ch + base)
+                    ows = ch.strip(' \t') == ''
+                    if ch == '\x00' and where == 'after': continue          # the request buffer is NUL padded: a NUL at the end of a line is the parser's subject
+                    method = rng.choice(['GET', 'OPTIONS'])
+                    pre = PREFLIGHT if method == 'OPTIONS' else []
+                    raw = f'{method} {FILE} HTTP/1.1\r\nHost: localhost\r\n'.encode() + b'Origin: ' + val.encode('utf-8') + b'\r\n' + b''.join(f'{n}: {v}\r\n'.encode() for n, v in pre) + b'\r\n'
+                    seen = [('Host', 'localhost'), ('Origin', base if ows else val)] + pre
+                    d = one(method, FILE, seen, 'character at the edge of the origin value', strict=not ows, raw=raw)
+                    reqs.append(d)
+        for line, seen in [(b'Origin:' + foo.encode(), foo), (b'Origin:\t' + foo.encode(), foo), (b'Origin : ' + foo.encode(), foo), (b'Origin:  ' + foo.encode(), foo),
+                           (b'Origin: ' + foo.encode() + b' \t ', foo), (b' Origin: ' + foo.encode(), foo), (b'Origin: ' + evil.encode() + b'\r\n ' + foo.encode(), None)]:
+            for method in ('GET', 'OPTIONS'):
+                raw = f'{method} {FILE} HTTP/1.1\r\nHost: localhost\r\n'.encode() + line + b'\r\n\r\n'
+                echo = dict(pairs).get(V['ALLOW_ALL']) != 'false'
+                if seen is None and echo: seen = evil                      # a folded line: its first line holds an origin of its own, echo mode may reflect that one
+                hs = [('Host', 'localhost')] + ([('Origin', seen)] if seen is not None else [])
+                reqs.append(one(method, FILE, hs, 'character at the edge of the origin value', strict=False, raw=raw))
+        # --- "Origin:" text that is NOT the Origin header: in the body, in another header's name or value, after the end of the head
+        for method, t, body in (('POST', '/form-url-encoded-enctype-post-method', b'Origin: ' + foo.encode() + b'\r\n\r\n'), ('POST', FILE, b'\r\nOrigin: ' + foo.encode() + b'\r\n'),
+                                ('GET', FILE, b'GET / HTTP/1.1\r\nOrigin: ' + foo.encode() + b'\r\n\r\n'), ('OPTIONS', FILE, b'Origin: ' + foo.encode()),
+                                ('POST', FILE, b'3\r\nabc\r\n0\r\nOrigin: ' + foo.encode() + b'\r\n\r\n')):
+            for o in ([], [('Origin', evil)]):
+                for xs in ([], [('X-Origin', foo)], [('Sec-WebSocket-Origin', foo)], [('X-Note', 'Origin: ' + foo)], [('Origin-Isolation', foo)], [('X-Forwarded-Origin', foo)]):
+                    framing = [('Transfer-Encoding', 'chunked'), ('Trailer', 'Origin')] if body.startswith(b'3\r\n') else [('Content-Length', str(len(body)))]
+                    reqs.append(one(method, t, xs + o + framing + (PREFLIGHT if method == 'OPTIONS' else []), 'origin text outside the origin header', body=body))
+        rng.shuffle(reqs)
+        return reqs
+
+    def history_block(pairs):
+        """ordered: what was asked BEFORE must not show in an answer"""
+        reqs = []
+        def R(method, t, hs, kind='history', **kw):
+            reqs.append(one(method, t, hs + (PREFLIGHT if method == 'OPTIONS' and kw.pop('pre', True) else []), kind, **kw))
+        def refused(hs, earn, which):
+            """a request that is answered without being looked at: it may carry no grants, never those of another request"""
+            raws = {'target': _raw('GET', 'x', hs), 'line': _raw('BREW', '/', hs), 'version': _raw('GET', '/', hs, version='HTTP/9.9'), 'star': _raw('OPTIONS', '*', hs + PREFLIGHT),
+                    'utf8': b'GET /\xff HTTP/1.1\r\n' + _raw('GET', '/', hs).split(b'\r\n', 1)[1], 'empty': b'', 'blank': b'\r\n\r\n', 'nul': b'\x00' * 16}
+            method = 'OPTIONS' if which == 'star' else 'GET'
+            reqs.append(dict(raw=raws[which], entry=rng.choice(['proc', 'preq']), kind='history: refused request after another', alloc=10000, ws='all', target='-', flush='ok', app='real',
+                             reqs=[(method, earn + (PREFLIGHT if which == 'star' else []), False)]))
+        O = lambda v: [('Origin', v)]
+        for t in [FILE, '/missing', '/', '/style.css', '/sub/'] if not quick else [FILE, '/missing', '/']:
+            for ent in (ENTRIES if not quick else [rng.choice(ENTRIES)]):
+                seq = [('GET', O(foo)), ('GET', []), ('GET', O(evil)), ('GET', O(foo)), ('OPTIONS', O(foo)), ('OPTIONS', O(evil)), ('OPTIONS', []), ('GET', O(foo.upper())), ('GET', O(bar)),
+                       ('HEAD', O(foo)), ('HEAD', O(evil)), ('GET', O(foo) + [('Cookie', 'sid=1')]), ('GET', O(evil) + [('Cookie', 'sid=1')]), ('GET', [('Cookie', 'sid=1')]),
+                       ('GET', O(foo) + [('Authorization', 'Bearer t')]), ('GET', O(foo + '.evil.example') + [('Authorization', 'Bearer t')]), ('POST', O(foo)), ('POST', O('null')), ('GET', O(foo + '/')), ('GET', O(foo))]
+                for method, hs in seq: R(method, t, [('Host', 'localhost:7878')] + hs, entry=ent)
+        # the same Origin and method, other preflight request headers (echo mode reflects them; list mode must not)
+        for pre in ([('Access-Control-Request-Method', 'PUT')], [('Access-Control-Request-Method', 'DELETE')], [('Access-Control-Request-Headers', 'X-A')], [('Access-Control-Request-Headers', 'X-B')], [],
+                    [('Access-Control-Request-Method', 'PUT'), ('Access-Control-Request-Headers', 'X-A')], [('Access-Control-Request-Method', 'PUT')]):
+            R('OPTIONS', FILE, O(foo) + pre, pre=False); R('OPTIONS', FILE, O(evil) + pre, pre=False)
+        # a refused request after a granted one, and a granted one after a refused one
+        for which in ('target', 'line', 'version', 'star', 'utf8', 'empty', 'blank', 'nul'):
+            for first, then in ((O(foo), []), (O(foo), O(evil)), (O(bar), O(foo)), ([], O(foo))):
+                R(rng.choice(['GET', 'OPTIONS']), FILE, first, entry=rng.choice(['proc', 'preq']))
+                refused(then, then, which)
+                R('GET', FILE, then)
+        # many different origins, then the first ones again (a bounded cache, an eviction)
+        n = 100 if quick else 1500
+        flood = [f'https://h{i}.example' for i in range(n)]
+        R('GET', FILE, O(foo)); R('GET', FILE, O(evil))
+        for i, ov in enumerate(flood): R('GET' if i % 3 else 'OPTIONS', FILE, O(ov))
+        for ov in (foo, evil, flood[0], foo.upper(), None, foo):
+            R('GET', FILE, O(ov) if ov is not None else []); R('OPTIONS', FILE, O(ov) if ov is not None else [])
+        return reqs
+
+    def stream_block(pairs):
+        """several requests in one read; interim answers: EVERY answer the peer receives is judged against the request it answers"""
+        reqs = []
+        for o1, o2 in [(foo, evil), (evil, foo), (None, foo), (foo, None), (foo, bar), (foo, foo), (foo, foo + '/')]:
+            for m1, m2 in [('GET', 'GET'), ('OPTIONS', 'GET'), ('GET', 'OPTIONS'), ('HEAD', 'GET'), ('POST', 'GET'), ('OPTIONS', 'OPTIONS')]:
+                for conn, ver in [(None, 'HTTP/1.1'), ('keep-alive', 'HTTP/1.1'), ('keep-alive', 'HTTP/1.0'), ('close', 'HTTP/1.1')]:
+                    if quick and rng.chance(1, 2): continue
+                    def hs(o, m):
+                        return [('Host', 'localhost:7878')] + ([('Origin', o)] if o is not None else []) + ([('Connection', conn)] if conn else []) + (PREFLIGHT if m == 'OPTIONS' else [])
+                    b1 = b'a=b' if m1 == 'POST' else b''
+                    h1 = hs(o1, m1) + ([('Content-Length', '3')] if m1 == 'POST' else [])
+                    t1 = '/form-url-encoded-enctype-post-method' if m1 == 'POST' else FILE
+                    raw = _raw(m1, t1, h1, b1, ver) + _raw(m2, rng.choice([FILE, '/missing', '/']), hs(o2, m2), b'', ver)
+                    reqs.append(dict(raw=raw, entry=rng.choice(['proc', 'preq']), kind='two requests in one read', alloc=10000, ws=rng.choice(['all', 'all', 'c:200']), target=t1, flush='ok', app='real',
+                                     reqs=[(m1, h1, True), (m2, hs(o2, m2), True)]))
+        for ov in (foo, evil, None, bar):
+            for exp in (('100-continue', '100-Continue') if not quick else ('100-continue',)):
+                for method, t, body in (('POST', '/form-url-encoded-enctype-post-method', b'a=b'), ('PUT', FILE, b'xyz'), ('POST', FILE, b''), ('OPTIONS', FILE, b''), ('GET', FILE, b'')):
+                    for has_len in (True, False):
+                        hs = [('Host', 'localhost:7878')] + ([('Origin', ov)] if ov is not None else []) + [('Expect', exp)] + ([('Content-Length', str(len(body)))] if has_len else []) \
+                             + (PREFLIGHT if method == 'OPTIONS' else [])
+                        if rng.chance(1, 2): hs = hs[:1] + hs[1:][::-1]
+                        # the body sent at once, and held back (the client waits for the interim answer)
+                        for sent in (body, b'') if body else (b'',):
+                            reqs.append(one(method, t, hs, 'expect: 100-continue', body=sent, entry=rng.choice(['proc', 'preq']), ws=rng.choice(['all', 'c:100'])))
+        return reqs
+
+    def truncated_block(pairs):
+        """KNOWN on the unchanged code (reported by the second audit, not in the default run: VERIF_C11_TRUNCATED=1): the server parses what ONE read of
+        request-allocation-size bytes delivered; an Origin header cut by the end of that buffer is taken for the whole header"""
+        reqs = []
+        for alloc in (200, 1000, 10000):
+            for base, rest in ((foo, '.evil.example'), (foo, ':8443'), (CONF[2][:-1], '0'), ('https://evil.example', '.x')):
+                head, tail = b'GET /file.txt?pad=', b' HTTP/1.1\r\nHost: localhost\r\nOrigin: ' + base.encode()
+                for extra in (0, 1, -1):
+                    raw = head + b'a' * (alloc - len(head) - len(tail) + extra) + tail + rest.encode() + b'\r\n\r\n'
+                    reqs.append(dict(raw=raw, entry='proc', kind='origin header cut by the end of the request buffer', alloc=alloc, ws='all', target='/file.txt', flush='ok', app='real',
+                                     reqs=[('GET', [('Host', 'localhost'), ('Origin', base + rest)], False)]))
+        return reqs
+
+    def halves(label, pairs):
+        # the shuffled block in three processes (model runs side by side; no request of it depends on another)
+        reqs = feature_block(pairs)
+        n = (len(reqs) + 2) // 3
+        return [(label + ' (%d)' % (k + 1), pairs, reqs[k * n:(k + 1) * n]) for k in range(3)]
+    plan = halves('off: features', OFF) + halves('on: features', ON) + \
+           [('off: histories', OFF, history_block(OFF)), ('on: histories', ON, history_block(ON)), ('off: streams', OFF, stream_block(OFF)), ('on: streams', ON, stream_block(ON))]
+    import os
+    if os.environ.get('VERIF_C11_TRUNCATED') == '1':
+        plan += [('off: truncated', OFF, truncated_block(OFF)), ('on: truncated', ON, truncated_block(ON))]
+    if not quick:
+        NOCRED = env_off(','.join(CONF), cred='', lists=dict(ALLOW_METHODS='GET', ALLOW_HEADERS='', EXPOSE_HEADERS='', MAX_AGE='0'))
+        UNSET = env_off(','.join(CONF), switch=None)
+        OWN = env_off('http://127.0.0.1:7878,' + foo)
+        plan += halves('off, shipped blanks: features', NOCRED) + halves('switch unset: features', UNSET) + halves('off, own address configured: features', OWN) + \
+                [('off, shipped blanks: histories', NOCRED, history_block(NOCRED) + stream_block(NOCRED)), ('switch unset: histories', UNSET, history_block(UNSET) + stream_block(UNSET))]
+    return plan
